@@ -2,6 +2,7 @@
 package c03
 
 import (
+	"bytes"
 	"crypto/ed25519"
 	"crypto/x509"
 	"fmt"
@@ -198,6 +199,9 @@ func TestProp_RandomMutations(t *testing.T) {
 			if string(m.Bundle) == string(b) {
 				return
 			}
+		}
+		if bytes.Equal(m.Bundle, b) && bytes.Equal(m.BundleSignature, s) {
+			return // the drawn edits cancelled out: not a mutation
 		}
 		pp := p
 		mustReject(t, tg, m, kind, fmt.Sprint(kind, p, len(m.Bundle)), func() any { return map[string]any{"entry": tg.name, "kind": kind, "pos": pp} })
